@@ -27,7 +27,6 @@ import (
 	"github.com/google/gce-tcb-verifier/keys"
 	sops "github.com/google/gce-tcb-verifier/sign/ops"
 	styp "github.com/google/gce-tcb-verifier/sign/types"
-	"go.uber.org/multierr"
 )
 
 var (
@@ -97,16 +96,20 @@ func Key(ctx context.Context) (string, error) {
 	}
 	req := &keyRequest{ca: c.CA, manager: c.Manager}
 
-	// The steps of rotation store intermediate results in the request
-	// for the error handling to sequence cleanly.
-	if err := multierr.Combine(
-		req.createNewSigningKeyVersion(ctx),
-		req.getCurrentInfo(ctx),
-		req.signAndAdd(ctx),
-		req.updatePrimaryAndDestroy(ctx),
-		req.finalize(ctx),
-	); err != nil {
-		return "", err
+	// Every step depends on the ones before it, so rotation stops at the first failure: a key whose
+	// certificate could not be signed or stored must not become primary, and the previous key is
+	// destroyed only once the new key and its certificate are durably recorded.
+	for _, step := range []func(context.Context) error{
+		req.createNewSigningKeyVersion,
+		req.getCurrentInfo,
+		req.signAndAdd,
+		req.updatePrimary,
+		req.finalize,
+		req.destroyPrevious,
+	} {
+		if err := step(ctx); err != nil {
+			return "", err
+		}
 	}
 
 	return req.kver, nil
@@ -160,13 +163,15 @@ func (r *keyRequest) signAndAdd(ctx context.Context) error {
 	return err
 }
 
-func (r *keyRequest) updatePrimaryAndDestroy(ctx context.Context) error {
+func (r *keyRequest) updatePrimary(ctx context.Context) error {
 	if r.kver == "" || r.mut == nil {
 		return fmt.Errorf("cannot update primary with signing key %q, mutation %v", r.kver, r.mut)
 	}
 	r.mut.SetPrimarySigningKeyVersion(r.kver)
+	return nil
+}
 
-	// Destroy the old version if it existed.
+func (r *keyRequest) destroyPrevious(ctx context.Context) error {
 	if r.currentVersion != "" {
 		output.Infof(ctx, "Destroying previous signing key %q", r.currentVersion)
 		if err := r.manager.DestroyKeyVersion(ctx, r.currentVersion); err != nil {
